@@ -973,6 +973,49 @@ def r210(ctx):
         raise AnalysisError(f"R-2.10: only {n} size tests guard the kernel calls of the block loop")
 
 
+def r212(ctx, rid="R-2.12", what=""):
+    """The probability budget of quick_prob is never negative when it is used: every path from a
+    subtraction `budget -= column` to the next use of the budget passes the clamp of negative
+    values (`budget[budget < 0] = 0`, numpy.maximum / clip). A budget that is exactly zero
+    mathematically carries a rounding residue of either sign; unclamped, a residue of -1e-19 is
+    multiplied into the next column and P gets negative entries (rgen.choice then refuses the
+    distribution: no job can be drawn)."""
+    f = ctx.tree.func(REPEX, "REPEX_state.quick_prob")
+    cfg = cfg_of(f)
+    subs = [st for st in walk_local(f) if isinstance(st, ast.AugAssign) and isinstance(st.op, ast.Sub) and isinstance(st.target, ast.Name)]
+    subs += [st for st in walk_local(f) if isinstance(st, ast.Assign) and len(st.targets) == 1 and isinstance(st.targets[0], ast.Name) and isinstance(st.value, ast.BinOp) and isinstance(st.value.op, ast.Sub) and isinstance(st.value.left, ast.Name) and st.value.left.id == st.targets[0].id]
+    if not subs:
+        raise AnalysisError(f"{rid}: quick_prob does not subtract the assigned column from a budget any more (cannot decide)")
+    for sb in subs:
+        b = sb.target.id if isinstance(sb, ast.AugAssign) else sb.targets[0].id
+
+        def is_clamp(st):
+            if isinstance(st, ast.Assign) and len(st.targets) == 1:
+                t = st.targets[0]
+                if isinstance(t, ast.Subscript) and isinstance(t.value, ast.Name) and t.value.id == b and isinstance(st.value, ast.Constant) and st.value.value == 0:
+                    cmps = [c for c in ast.walk(t.slice) if isinstance(c, ast.Compare) and len(c.ops) == 1]
+                    for c in cmps:
+                        l, r, op = c.left, c.comparators[0], c.ops[0]
+                        if isinstance(l, ast.Name) and l.id == b and isinstance(r, ast.Constant) and r.value == 0 and isinstance(op, (ast.Lt, ast.LtE)):
+                            return True
+                        if isinstance(r, ast.Name) and r.id == b and isinstance(l, ast.Constant) and l.value == 0 and isinstance(op, (ast.Gt, ast.GtE)):
+                            return True
+                if isinstance(t, ast.Name) and t.id == b and isinstance(st.value, ast.Call) and last_name(st.value) in ("maximum", "clip", "fmax") and any(isinstance(a, ast.Name) and a.id == b for a in st.value.args) and any(isinstance(a, ast.Constant) and a.value == 0 for a in st.value.args):
+                    return True
+            if isinstance(st, ast.Expr) and isinstance(st.value, ast.Call) and last_name(st.value) in ("clip", "maximum") and any(k.arg == "out" and isinstance(k.value, ast.Name) and k.value.id == b for k in st.value.keywords):
+                return True
+            return False
+
+        stmts = [st for st in walk_local(f) if isinstance(st, ast.stmt) and st is not f and not isinstance(st, (ast.FunctionDef, ast.For, ast.While, ast.If, ast.With, ast.Try))]
+        clamps = [cfg.node_of(st) for st in stmts if is_clamp(st)]
+        uses = [st for st in stmts if st is not sb and not is_clamp(st) and not isinstance(st, (ast.For, ast.While, ast.If)) and any(isinstance(x, ast.Name) and x.id == b and isinstance(x.ctx, ast.Load) for x in ast.walk(st)) and not isinstance(st, ast.Return)]
+        bad = [u for u in uses if cfg.reaches(cfg.node_of(sb), cfg.node_of(u), avoid=clamps, labels_excluded=("exc",))]
+        if bad:
+            ctx.bad(rid, sb, f"quick_prob uses the budget `{b}` in `{short(bad[0], 50)}` after `{short(sb, 40)}` without the clamp of negative values in between ({'no clamp at all' if not clamps else 'the clamp runs before the subtraction'}): the rounding residue of an exhausted budget (about -1e-19) is multiplied into the next column, P gets negative entries{what}", construct=f"quick_prob: budget {b} used unclamped after the subtraction")
+        else:
+            ctx.ok(rid, sb, f"quick_prob: every use of the budget `{b}` after the subtraction passes the clamp of negative values")
+
+
 def run(ctx):
     ctx.rule("R-2.1", "cache coherence of the memoised P matrix: typestate NONE/OK/STALE over every method of REPEX_state with callee summaries; no stale read, no stale exit of an externally called method; only the getter stores a matrix", floor=20)
     ctx.rule("R-2.2", "the getter computes P from the live weight matrix and busy flags and memoises that result", floor=2)
@@ -993,6 +1036,8 @@ def run(ctx):
     ctx.attempt(r28, ctx)
     ctx.rule("R-2.7", "quick_prob touches its argument only through shape and zero pattern (scale invariance of the fast path; zero where the weight is zero)", floor=2)
     ctx.attempt(r27, ctx)
+    ctx.rule("R-2.12", "quick_prob: the probability budget is clamped to >= 0 between every subtraction and its next use (no negative entries of P from rounding residues)", floor=1)
+    ctx.attempt(r212, ctx)
     ctx.rule("R-2.9", "random_prob divides by the number of permutation matrices it accumulated (initial identity + one per iteration): the estimate is doubly stochastic", floor=1)
     ctx.attempt(r29, ctx)
     ctx.rule("R-2.10", "the kernel chosen for a block depends on that block (size tests of the dispatch refer to the array handed to the kernel)", floor=2)
@@ -1000,6 +1045,10 @@ def run(ctx):
 
 
 VARIANTS = [
+    B("c02-budget-clamped-before-subtraction", REPEX, "            total_traj_prob -= ens\n            # force negative values to 0\n            total_traj_prob[np.where(total_traj_prob < 0)] = 0\n", "            # force negative values to 0\n            total_traj_prob[np.where(total_traj_prob < 0)] = 0\n            total_traj_prob -= ens\n", "R-2.12", control=True, why="seeded C05_k"),
+    B("c02-budget-never-clamped", REPEX, "            total_traj_prob[np.where(total_traj_prob < 0)] = 0\n", "", "R-2.12"),
+    K("c02-keep-budget-clamp-maximum", REPEX, "            total_traj_prob[np.where(total_traj_prob < 0)] = 0\n", "            total_traj_prob = np.maximum(total_traj_prob, 0)\n"),
+    K("c02-keep-budget-clamp-mask", REPEX, "            total_traj_prob[np.where(total_traj_prob < 0)] = 0\n", "            total_traj_prob[total_traj_prob < 0] = 0\n"),
     B("c02-minus-only-guard-strict", REPEX, "if len(sorted_non_locked_T) <= offset:", "if len(sorted_non_locked_T) < offset:", "R-2.11", control=True, why="seeded C02_f"),
     # R-2.1
     B("c02-sort-reads-stale-matrix", REPEX, "        self._last_prob = None\n        self.prob\n\n    def lock(self, ens):", "        self.prob\n\n    def lock(self, ens):", "R-2.1", control=True, why="swaps of the re-sort without invalidation"),
